@@ -131,6 +131,33 @@ class CodeGenerator:
             dv.address = label.name
             output_stream.emit(DebugData(dv))
 
+    @staticmethod
+    def split_critical_edges(ir_function):
+        """Give each edge from a conditional jump to a block with phi nodes
+        a block of its own.
+
+        The copies which implement the phi nodes are placed at the end of
+        the predecessor block. Behind a conditional jump this is wrong: the
+        copies for one target are also executed when the other target is
+        taken (a loop header phi which is used after the loop), and they are
+        executed before the operands of the jump itself are evaluated.
+        """
+        edge_nr = 1
+        for block in list(ir_function):
+            if not isinstance(block.last_instruction, ir.CJump):
+                continue
+            successors = []
+            for successor in block.successors:
+                if successor.phis and successor not in successors:
+                    successors.append(successor)
+            for successor in successors:
+                edge_block = ir.Block(f"{ir_function.name}_edge_{edge_nr}")
+                edge_nr += 1
+                ir_function.add_block(edge_block)
+                block.change_target(successor, edge_block)
+                edge_block.add_instruction(ir.Jump(successor))
+                successor.replace_incoming(block, [edge_block])
+
     def generate_function(self, ir_function, output_stream, debug=False):
         """Generate code for one function into a frame"""
         self.logger.info(
@@ -154,6 +181,8 @@ class CodeGenerator:
                 _, block = split_block(
                     block, pos=max_block_len, newname=newname
                 )
+
+        self.split_critical_edges(ir_function)
 
         self._mark_global(output_stream, ir_function)
         output_stream.emit(SetSymbolType(ir_function.name, "func"))
